@@ -1,5 +1,5 @@
 (** C07 — Compact bigram connectors compute the defining feature-pair sum. *)
-From Vib Require Import Model.Base Model.Scorer Proofs.ScorerProofs Proofs.RawSpecProofs.
+From Vib Require Import Model.Base Model.Scorer Model.Dual Proofs.ScorerProofs Proofs.RawSpecProofs Proofs.DualProofs.
 Local Open Scope N_scope.
 
 (** The XOR double array ([bases], [checks]/[costs]) built by [ScorerBuilder::build] answers
@@ -32,6 +32,21 @@ Theorem c07_raw_is_defining_sum : forall fuel right left lines rc,
   raw_cost rc r l = spec_cost right left lines r l.
 Proof. exact raw_cost_spec. Qed.
 
+(** THE DUAL CONNECTOR.  Its template positions are split into a part that is pre-summed into a
+    16-bit matrix and a part scored by a pruned double array; which positions go where is the
+    result of a greedy search in the Rust code.  For EVERY split [mask] of the positions, and every
+    connection-id pair whose pre-summed part fits 16 bits, the modelled dual connector returns the
+    defining sum as well (so raw and dual agree): the lanes split additively by the mask, the clamp
+    is the identity under the fit hypothesis, and the pruned trie answers like the full one on
+    every feature the raw part uses. *)
+Theorem c07_dual_is_defining_sum : forall fuel mask right left lines dc,
+  build_dual fuel mask right left lines = Some dc -> N.of_nat (length lines) + 1 < INVALID ->
+  length mask = fold_right Nat.max 0%nat (map (@length _) (right ++ left)) ->
+  forall r l, (N.to_nat r <= length right)%nat -> (N.to_nat l <= length left)%nat ->
+  (-32768 <= matrix_part dc r l <= 32767)%Z ->
+  dual_cost dc r l = spec_cost right left lines r l.
+Proof. exact dual_cost_spec. Qed.
+
 (** non-vacuity and an instance of the property: A/a listed with 5, '*' and the BOS row *)
 Example c07_example :
   match build_raw 100 [[[65%N]; [42%N]]] [[[97%N]; [42%N]]] [([65%N], [97%N], 5%Z); ([], [97%N], 7%Z)] with
@@ -41,8 +56,17 @@ Example c07_example :
   end.
 Proof. vm_compute. auto. Qed.
 
+(** non-vacuity of [c07_dual_is_defining_sum]: two templates, the first in the matrix part *)
+Example c07_dual_example :
+  match build_dual 100 [true; false] [[[65%N]; [66%N]]] [[[97%N]; [98%N]]] [([65%N], [97%N], 5%Z); ([66%N], [98%N], 11%Z); ([], [97%N], 7%Z)] with
+  | Some dc => dual_cost dc 1 1 = 16%Z /\ matrix_part dc 1 1 = 5%Z /\ dual_cost dc 0 1 = 7%Z
+  | None => False
+  end.
+Proof. vm_compute. auto. Qed.
+
 Check c07_scorer_correct.
 Print Assumptions c07_scorer_correct.
 Print Assumptions c07_trie_wellformed.
 Print Assumptions c07_raw_cost.
 Print Assumptions c07_raw_is_defining_sum.
+Print Assumptions c07_dual_is_defining_sum.
